@@ -66,6 +66,7 @@ func runSched(inp schedInput) (out map[string]any) {
 	if err != nil {
 		return map[string]any{"n": inp.N, "ok": true, "inconclusive": "container rejected: " + err.Error()}
 	}
+	c.viaD = inp.N%2 == 1
 	apis := []string{"producer", "readone", "next"}
 	iters := map[string]*iter{}
 	ctxs := map[string]context.Context{}
@@ -100,8 +101,12 @@ func runSched(inp schedInput) (out map[string]any) {
 			"what": fmt.Sprintf("step %d (%s %s%s): %s", k, inp.Beh[k].Op, inp.Beh[k].Arg, inp.Beh[k].It, what), "trace": trace}
 	}
 	holding := false
+	pushed := map[string]bool{} // every value the schedule (printed by TLC) has handed to the container so far
 	for k := 1; k < len(inp.Beh); k++ {
 		st := inp.Beh[k]
+		if st.Arg != "" && st.Op != "pop" {
+			pushed[st.Arg] = true
+		}
 		var drv *rt.Op // the driver's own operation of this step, if it has a result
 		switch st.Op {
 		case "next":
@@ -123,6 +128,9 @@ func runSched(inp schedInput) (out map[string]any) {
 		case "add":
 			v := st.Arg
 			drv = rt.Start(k, func() any { return c.add(v) })
+		case "fadd":
+			v := st.Arg
+			drv = rt.Start(k, func() any { return c.fadd(v) })
 		case "pop":
 			end := st.Arg
 			drv = rt.Start(k, func() any { return c.pop(end) })
@@ -230,6 +238,8 @@ func runSched(inp schedInput) (out map[string]any) {
 				trace = append(trace, row)
 				key := what + "/wrong-value"
 				switch {
+				case what == "next" && !pushed[r] && !strings.HasPrefix(r, "panic:") && r != "eof" && r != "ctx" && !strings.HasPrefix(r, "err:"):
+					key = what + "/value-never-added"
 				case strings.HasPrefix(r, "panic:"):
 					key = what + "/panic"
 				case r == "eof":
